@@ -121,7 +121,13 @@ def run_engine(tier, seed, known, only):
     iop, ttp = os.path.join(bd, "io_used.mir"), os.path.join(bd, "tensor_used.mir")
     open(iop, "w").write(io); open(ttp, "w").write(tt)
     shapes = _shapes(tier)
-    args = [(dims, 1 + (i + seed) % 3, iop, ttp) for i, dims in enumerate(shapes)]
+    def ndig(i, dims):
+        n = 1
+        for x in dims:
+            n *= x
+        k = 1 + (i + seed) % 3
+        return k if n <= 8 or k > 1 else 2       # one-digit elements fork on "is it 0": 2^n paths
+    args = [(dims, ndig(i, dims), iop, ttp) for i, dims in enumerate(shapes)]
     with ProcessPoolExecutor(max_workers=int(os.environ.get("VERIF_JOBS", "16"))) as ex:
         results = list(ex.map(_run_shape, args))
     nv = 0
